@@ -9,6 +9,13 @@ import PydapModel.PathServer
 import Proofs.Path
 import Proofs.PathServe
 import Proofs.AppSrc
+import PydapModel.PathRoot
+import PydapModel.PathRe
+import PydapModel.PathSort
+import Proofs.PathRoot
+import Proofs.PathRe
+import Proofs.PathSort
+import Proofs.PathAgree
 namespace Pydap.C16
 open Pydap Pydap.Path
 
@@ -192,6 +199,166 @@ example : contained ["r".toList] ["r".toList, "x".toList] = true ∧ contained [
 example : sortNames ["f10".toList, "f9".toList, "a".toList, "F".toList] =
     ["F".toList, "a".toList, "f9".toList, "f10".toList] := by decide
 example : target ["r".toList] "/../../..//./r/x".toList = ["r".toList, "x".toList] := by decide
+
+/-! ### the configured data directory, however the operator spells it
+
+`DapServer.__init__` stores `os.path.abspath(spelling)` (`Path.abspath cwd spelling`: relative spellings are taken
+from the working directory of that moment); `__call__` compares against that stored text.  Every statement above
+is about a normalised `root`; the following ones say that the root the server actually uses *is* normalised,
+whatever was typed, and carry confinement over to every spelling. -/
+
+/-- (a) the stored root has no empty, `.` or `..` component and no separator inside a component — for every
+    spelling (`..`, `.`, `//`, trailing `/`, relative) — and normalising it again, from any working directory,
+    changes nothing -/
+theorem C16_root_normalised (cwd : Segs) (spelling : List Char) (hcwd : Normal cwd) :
+    Normal (abspath cwd spelling) ∧ ∀ cwd', abspath cwd' (text (abspath cwd spelling)) = abspath cwd spelling :=
+  ⟨abspath_normal cwd spelling hcwd, fun cwd' => abspath_idem cwd cwd' spelling hcwd⟩
+
+/-- (b) **confinement for every spelling of the data directory**: every path the server stats, lists, serves or
+    hands to a handler lies under the *normalised* data directory -/
+theorem C16_contained (exts : List Seg) (fs : FS) (cwd : Segs) (spelling pathInfo : List Char)
+    (hcwd : Normal cwd) (hexists : fs (abspath cwd spelling) ≠ .missing) :
+    ∀ a ∈ (serveSpelled exts fs cwd spelling pathInfo).1, abspath cwd spelling <+: a.path :=
+  serve_confined exts fs _ pathInfo (abspath_normal cwd spelling hcwd) hexists
+
+/-- (b) a request is answered "forbidden" **exactly** when it resolves outside the normalised data directory, and
+    then nothing on disk is touched; the sibling `<root>2` of a root spelled `<root>/`, `<root>/.`, `x/../<root>` … is
+    outside like any other -/
+theorem C16_contained_forbidden_iff (exts : List Seg) (fs : FS) (cwd : Segs) (spelling pathInfo : List Char)
+    (hcwd : Normal cwd) :
+    ((serveSpelled exts fs cwd spelling pathInfo).2 = .forbidden ↔
+      ¬ abspath cwd spelling <+: target (abspath cwd spelling) pathInfo) ∧
+    ((serveSpelled exts fs cwd spelling pathInfo).2 = .forbidden → (serveSpelled exts fs cwd spelling pathInfo).1 = []) := by
+  have hroot := abspath_normal cwd spelling hcwd
+  have hp := target_normal (abspath cwd spelling) pathInfo hroot
+  have hiff := contained_iff_prefix _ _ hroot hp
+  cases hc : contained (abspath cwd spelling) (target (abspath cwd spelling) pathInfo) with
+  | false =>
+    have hout : ¬ abspath cwd spelling <+: target (abspath cwd spelling) pathInfo := by
+      intro h; rw [hiff.mpr h] at hc; cases hc
+    have := C16_outside_forbidden exts fs _ pathInfo hroot hout
+    simp only [serveSpelled, Srv.init, Srv.call, this]
+    exact ⟨⟨fun _ => hout, fun _ => trivial⟩, fun _ => trivial⟩
+  | true =>
+    have hne := serveAt_contained_not_forbidden exts fs _ _ hc
+    simp only [serveSpelled, Srv.init, Srv.call, serve]
+    exact ⟨⟨fun h => absurd h hne, fun h => absurd (hiff.mp hc) h⟩, fun h => absurd h hne⟩
+
+/-- (c) **a spelled root and its normal form serve identically**: same accesses, same outcome, for every request
+    and file system (the second server may be created from any working directory: the normal form is absolute) -/
+theorem C16_spelling_irrelevant (exts : List Seg) (fs : FS) (cwd cwd' : Segs) (spelling pathInfo : List Char)
+    (hcwd : Normal cwd) :
+    serveSpelled exts fs cwd' (text (abspath cwd spelling)) pathInfo = serveSpelled exts fs cwd spelling pathInfo :=
+  serveSpelled_normal_form exts fs cwd cwd' spelling pathInfo hcwd
+
+-- non-vacuity: the spellings the harness uses (through a sibling and `..`, trailing slash, doubled slash, `.`,
+-- through a sub-directory and `..`, relative from the parent, relative with `..`) all normalise to `/b/data`
+example : ["/b/data", "/b/other/../data", "/b/data/", "/b//data", "/b/./data", "/b/data/sub/..", "data", "./data",
+    "other/../data", "../b/data", "../../../b/data//"].map (fun s => abspath ["b".toList] s.toList) =
+    List.replicate 11 ["b".toList, "data".toList] := by decide
+example : Normal ["b".toList] := by intro s hs; simp at hs; subst hs; simp [SegOK, dot, dotdot]
+example : (serveSpelled exExts exFs [] "/x/../r/".toList "/../r2/s".toList) = ([], .forbidden) := by decide
+example : (serveSpelled exExts exFs ["r".toList, "d".toList] "..".toList "/a.csv.dds".toList).2 =
+    .dap ["r".toList, "a.csv".toList] := by decide
+example : leadingDouble "//b/data".toList = true ∧ leadingDouble "///b/data".toList = false := by decide
+
+/-! ### "supported": what the handlers' regular expressions mean
+
+`PydapModel/PathRe.lean` models the fragment of `re` in which the handlers' patterns are written
+(`^.*\.(nc4|nc|cdf)$`, `^.*\.csv$`, IGNORECASE) and `get_handler`'s first-match loop over them. -/
+
+/-- **a file is supported iff its name ends in a dot and one of the handlers' extensions, whatever the case**: for
+    every table of handlers whose patterns have the form `^.*\.(e1|e2|…)$`, every directory `d` and name `n`
+    (no line feed in the path; no separator in an extension) -/
+theorem C16_supported_iff_dot_ext (hs : List (List Seg)) (d : Segs) (n : Seg)
+    (hnl : '\n' ∉ text (d ++ [n])) (hexts : ∀ e ∈ hs.flatten, '/' ∉ lower e) :
+    supportedBy (hs.map dotExtPattern) (d ++ [n]) = true ↔ ∃ e ∈ hs.flatten, endsWith (lower n) ('.' :: lower e) = true := by
+  rw [supportedBy_eq_hasHandler hs _ hnl, hasHandler_basename _ d n]
+  · simp only [List.any_map, List.any_eq_true, Function.comp]
+  · intro e he
+    obtain ⟨e0, he0, rfl⟩ := List.mem_map.mp he
+    exact hexts e0 he0
+
+/-- `get_handler` picks the FIRST handler of the table whose extensions fit (none before it does) -/
+theorem C16_supported_first_handler (hs : List (List Seg)) (p : Segs) (i : Nat) (hnl : '\n' ∉ text p)
+    (h : getHandler (hs.map dotExtPattern) p = some i) :
+    ∃ exts, hs[i]? = some exts ∧ hasHandler (exts.map lower) p = true ∧
+      ∀ j < i, ∀ ex, hs[j]? = some ex → hasHandler (ex.map lower) p = false :=
+  getHandler_first hs p i hnl h
+
+/-- the model's `hasHandler` (used by `serve` and `index`) *is* `get_handler` over patterns of that form -/
+theorem C16_hasHandler_is_get_handler (hs : List (List Seg)) (p : Segs) (hnl : '\n' ∉ text p) :
+    supportedBy (hs.map dotExtPattern) p = hasHandler (hs.flatten.map lower) p :=
+  supportedBy_eq_hasHandler hs p hnl
+
+private def exHandlers : List (List Seg) := [["nc4".toList, "nc".toList, "cdf".toList], ["csv".toList]]
+private def sup (n : String) : Bool := supportedBy (exHandlers.map dotExtPattern) ["r".toList, n.toList]
+
+-- names that merely END in the letters, a hidden file whose whole name is an extension, upper/mixed case, several dots
+example : ["oldcsv", "export_csv", "xnc4", "b.acdf", "csv", "noext", "a.csv.txt", "a.", ".", "x.csvx"].map sup =
+    List.replicate 10 false := by decide
+example : [".csv", "T.CSV", "t.CsV", "a.b.csv", "..nc", "w.nc4", "m.CDF", "x.nc.cdf", "a b.csv", "x.tar.NC"].map sup =
+    List.replicate 10 true := by decide
+example : getHandler (exHandlers.map dotExtPattern) ["r".toList, "x.csv".toList] = some 1 ∧
+    getHandler (exHandlers.map dotExtPattern) ["r".toList, "x.NC4".toList] = some 0 ∧
+    getHandler (exHandlers.map dotExtPattern) ["r".toList, "oldcsv".toList] = none := by decide
+/-- what the line-feed hypothesis excludes: `$` also matches before a final `\n`, `.` never matches one -/
+example : (dotExtPattern ["csv".toList]).matches "x.csv\n".toList = true ∧
+    (dotExtPattern ["csv".toList]).matches "a\nx.csv".toList = false := by decide
+/-- a pattern without the `\.` (an independently written breaking change) means something else -/
+example : (⟨true, [.anyStar, .alts ["csv".toList], .eol]⟩ : Pattern).matches "/r/oldcsv".toList = true := by decide
+
+/-- **listing, catalog and routing agree**: an entry `e` of a directory `d` inside the data directory is offered as
+    a dataset (flag `supported` in the HTML listing; the THREDDS catalog shows exactly the flagged files) iff the
+    request `<d>/<e>.<response>` is handed to a handler — for that very file.  (`<e>.<response>` is not itself on
+    disk, else that file would be served verbatim, and is not literally `catalog.xml`.) -/
+theorem C16_listing_routes_agree (exts : List Seg) (fs : FS) (root d : Segs) (es : List Seg) (e r : Seg) (cat : Bool)
+    (hexts : ∀ x ∈ exts, x ≠ [] ∧ '.' ∉ x ∧ '/' ∉ x)
+    (he : e ∈ es) (hfile : fs (d ++ [e]) = .file)
+    (hin : contained root (d ++ [e ++ '.' :: r]) = true)
+    (hmiss : fs (d ++ [e ++ '.' :: r]) = .missing)
+    (hr : '.' ∉ r) (hcat : e ++ '.' :: r ≠ catalogName) :
+    (e, true) ∈ (index exts fs cat d es).2.files ↔
+      (serveAt exts fs root (d ++ [e ++ '.' :: r])).2 = .dap (d ++ [e]) := by
+  rw [mem_index_files, ← route_entry_response exts fs root d e r hexts hfile hin hmiss hr hcat]
+  constructor
+  · intro h; exact h.2.2.symm
+  · intro h; exact ⟨he, by simp [hfile, Node.isFile], h.symm⟩
+
+-- non-vacuity: `a.csv` is flagged and `/a.csv.dds` is routed to its handler; `t.txt` is neither
+example : (("a.csv".toList, true) ∈ (index exExts exFs false ["r".toList] ["a.csv".toList, "d".toList, "t.txt".toList]).2.files) ∧
+    (serveAt exExts exFs ["r".toList] ["r".toList, "a.csv.dds".toList]).2 = .dap ["r".toList, "a.csv".toList] ∧
+    (("t.txt".toList, false) ∈ (index exExts exFs false ["r".toList] ["a.csv".toList, "d".toList, "t.txt".toList]).2.files) := by
+  decide
+
+/-! ### the order of the listing (`alphanum_key`) -/
+
+/-- **the listing's order is a total preorder on all names**: reflexive, total, transitive (names that differ only in
+    leading zeros of a number compare equal: a preorder, not an order) -/
+theorem C16_listing_order_total_preorder :
+    (∀ a : Seg, nameLe a a = true) ∧ (∀ a b : Seg, nameLe a b = true ∨ nameLe b a = true) ∧
+    (∀ a b c : Seg, nameLe a b = true → nameLe b c = true → nameLe a c = true) :=
+  ⟨nameLe_refl, nameLe_total, nameLe_trans⟩
+
+/-- **no `TypeError`**: Python's own comparison of the keys of any two names (`list.__lt__`, partial: text against
+    number raises) is defined and is the model's; so is the whole sort, for every directory — a name starting with
+    a digit next to one that does not included (`re.split` always yields a text chunk first, possibly empty) -/
+theorem C16_listing_sort_never_raises :
+    (∀ a b : Seg, keyLt? (alphanumKey a) (alphanumKey b) = some (keyLt (alphanumKey a) (alphanumKey b))) ∧
+    (∀ l : List Seg, sortNames? l = some (sortNames l)) :=
+  ⟨keyLt?_names, sortNames?_eq⟩
+
+/-- the listing is the directory: a permutation of its names, in non-decreasing `alphanum_key` order -/
+theorem C16_listing_sorted_permutation (l : List Seg) :
+    (sortNames l).Perm l ∧ (sortNames l).Pairwise (fun a b => nameLe a b = true) :=
+  ⟨sortNames_perm l, sortNames_sorted l⟩
+
+/-- what the alternation of the chunks excludes: a number chunk against a text chunk raises -/
+example : keyLt? [.num 2020] [.str "t".toList] = none := by decide
+example : alphanumKey "2020_01.csv".toList = [.str [], .num 2020, .str "_".toList, .num 1, .str ".csv".toList] ∧
+    alphanumKey "t.csv".toList = [.str "t.csv".toList] := by decide
+example : sortNames? ["t.csv".toList, "2020_01.csv".toList, "f10".toList, "f9".toList, "f010".toList] =
+    some ["2020_01.csv".toList, "f9".toList, "f10".toList, "f010".toList, "t.csv".toList] := by decide
 
 /-! ### the tie by translation: the *source text* of `DapServer.__call__` takes the model's routing decision
 
